@@ -822,3 +822,28 @@ func (r RatP) SubstSquare(sym string, repl RatP) RatP {
 
 // IsZero reports whether the rational function is identically zero.
 func (r RatP) IsZero() bool { return len(r.N.T) == 0 }
+
+// SetFieldAV returns v (an abstract struct of type t) with the field at the dotted path replaced by nv.
+func SetFieldAV(v AV, t types.Type, nv AV, path ...string) (AV, bool) {
+	var idx []int
+	cur := t
+	for _, name := range path {
+		st, ok := cur.Underlying().(*types.Struct)
+		if !ok {
+			return v, false
+		}
+		found := false
+		for i := 0; i < st.NumFields(); i++ {
+			if st.Field(i).Name() == name {
+				idx = append(idx, i)
+				cur = st.Field(i).Type()
+				found = true
+				break
+			}
+		}
+		if !found {
+			return v, false
+		}
+	}
+	return setPath(v, idx, nv), true
+}
